@@ -127,9 +127,46 @@ def staircase_scenario(rng, sid, cap):
     return '\n'.join([head] + ['T ' + ';'.join(p) for p in progs] + ['GO'])
 
 
+def boundary_scenario(rng, sid, cap):
+    """fully serialised history with guards pinned exactly at / next to the first and last epoch of a
+    256-epoch range (B-1, B, B+1, B+255, B+256 for B = 512, 768), held while the coordinator crosses one or two
+    further range boundaries (257, 258, 513 ... forwards), then the list is read again through the guard"""
+    nworkers = min(rng.randrange(1, 4), max(1, cap))
+    coord = nworkers
+    events = []
+    cur = 256
+    targets = sorted(rng.choice([512, 768]) + rng.choice([-1, 0, 0, 0, 1, 255, 256]) + 256 * j for j in range(nworkers))
+    for j, e in enumerate(targets):
+        if e > cur:
+            events.append((coord, f'fwd {e - cur}'))
+            cur = e
+        events.append((j, rng.choice([f'guard {2 * j}', f'gpe {2 * j}'])))
+    n = rng.choice([255, 256, 257, 258, 300, 513, 600])
+    events.append((coord, f'fwd {n}'))
+    cur += n
+    rel = list(range(nworkers))
+    rng.shuffle(rel)
+    for j in rel:
+        events.append((j, f'gepoch {2 * j}'))
+        events.append((j, f'relist {2 * j}'))
+        if rng.random() < 0.6:
+            events.append((coord, f'fwd {rng.choice([1, 2, 255, 256, 257])}'))
+            events.append((j, f'relist {2 * j}'))
+        events.append((j, f'unguard {2 * j}'))
+        events.append((coord, f'fwd {rng.choice([1, 2, 3])}'))
+    events.append((coord, 'fwd 2'))
+    progs = [[f'probe {rng.randrange(cap)}'] for _ in range(nworkers)] + [[]]
+    for turn, (t, ins) in enumerate(events):
+        progs[t] += [f'await {turn}', ins, 'bump']
+    progs[coord] += ['min', 'cur']
+    head = (f'SCEN {sid} comp=thread nvars={2 * nworkers} policy={rng.choice([0, 1, 2])} seed={rng.randrange(1, 1 << 30)} '
+            f'max_steps=600000 seq=1')
+    return '\n'.join([head] + ['T ' + ';'.join(p) for p in progs] + ['GO'])
+
+
 def deep_scenario(rng, sid, cap, sequential):
-    if sequential and rng.random() < 0.5:
-        return staircase_scenario(rng, sid, cap)
+    if sequential and rng.random() < 0.6:
+        return boundary_scenario(rng, sid, cap) if rng.random() < 0.5 else staircase_scenario(rng, sid, cap)
     """guards pinned in different 256-epoch ranges while the coordinator walks over several range boundaries:
     exercises the pruning walk with kept nodes between the head and an out-dated node"""
     nworkers = rng.randrange(1, max(2, cap))
